@@ -19,6 +19,20 @@ class GateListener:
         elif self.cmp_id is not None and callee.get('m') == self.cmp_id:
             log(st, 'TAGCMP', val, show(args[3]) if len(args) > 3 else '?', nloc(node))
 
+    def on_call(self, I, st, node, q, callee, this, args, argnodes, fr):
+        # the key that reaches the MAC: its 16 bytes as values (the operation's key bytes are the named unknowns $key0..15)
+        fn = I.prog.functions.get(callee.get('m'))
+        if fn is None or callee.get('rec') != self.D.mac_rec or fr.fn.get('rec') == self.D.mac_rec:
+            return
+        for i, p_ in enumerate(fn['params']):
+            if p_['n'] == 'key' and i < len(args):
+                kp = args[i]
+                if kp[0] == 'p' and kp[2] and isinstance(kp[2][-1], int):
+                    vals = tuple(show(I.load(st, (kp[1], kp[2][:-1] + (kp[2][-1] + j,)))) for j in range(16))
+                else:
+                    vals = (show(kp),)
+                log(st, 'MACKEY', fn['q'], vals, nloc(node))
+
     def on_fread(self, I, st, node, root, pos, size, dst, got):
         # a scalar read from the file is one fixed unknown number named by stream and offset (provenance)
         if dst is None or dst[0] != 'p' or size[0] != 'c' or not (1 <= size[1] <= 8):
@@ -92,6 +106,7 @@ class DriverRules:
         self.verify = find_verify(self.D)
         from .hmac_rules import HmacRules
         self.tagcmp = HmacRules(prog, report_null()).cmp
+        self.D.mac_rec = self.tagcmp.get('rec')
         self.D.extra_listeners = [GateListener(self.D, self.verify['id'], self.tagcmp['id'])]
         self.Ts = list(range(1, self.D.tmax + 1)) if tier == 'thorough' else [1, 2, 4, self.D.tmax]
         rec.extra['thread_counts'] = self.Ts
@@ -173,6 +188,7 @@ class DriverRules:
             succ = [(s, v) for s, v in out if v == C(1)]
             nsucc += len(succ)
             for s, v in succ:
+                self.mac_key_rule(s, T, f)
                 ev = accesses(s)
                 bm, overl = self.bytemap(s)
                 hdr = 48 + 20 * T
@@ -298,8 +314,10 @@ class DriverRules:
             # C02's statement documents the current behaviour: every stream is keyed with the first 16 bytes of the FIRST IV
             rec.ob('R02.i', 'R02.i@%s::streams-start-from-first-iv' % fkey(f), same_obj and ivf == P(ivobj, (0,)), e[5],
                    'T=%d: stream %d starts from %s (documented format: the first IV for every stream)' % (T, k, show(ivf) if ivf else '?'))
-            okk = keyf == P(KEY, (0,))
-            rec.ob('R06.b', 'R06.b@%s::stream-key-is-operation-key' % fkey(f), okk, e[5], 'stream key pointer %s' % (show(keyf) if keyf else '?'))
+            kv = s.comps.get(('streamkey', k))
+            okk = keyf == P(KEY, (0,)) or kv == tuple('$key%d' % j for j in range(16))
+            rec.ob('R06.b', 'R06.b@%s::stream-key-is-operation-key' % fkey(f), okk, e[5], 'stream key %s holds %s' % (
+                show(keyf) if keyf else 'copy', 'the 16 bytes of the operation key' if okk else kv))
             dirv = args[0] if args else None
             rec.ob('R02.d', 'R02.d@%s::stream-direction' % fkey(f), dirv == C(1 if enc else 0), e[5],
                    'stream %d created for %s (flag %s)' % (k, 'encryption' if enc else 'decryption', show(dirv) if dirv else '?'))
@@ -329,6 +347,7 @@ class DriverRules:
                 rec.ob('R11.b', 'R11.b@%s::table-subscripts-in-range' % fkey(f), not seen_oob, where,
                        'T=%d %s: every subscript of a constant table on the analysed paths stays inside the table: %s' % (T, op, 'yes' if not seen_oob else 'NO'))
                 for s, v in out:
+                    self.mac_key_rule(s, T, f)
                     ev = accesses(s, kinds=('W', 'R', 'SEEK', 'PIPE', 'HASHFILE', 'HBUF', 'CLOSE', 'HASHSTR', 'NULLDEREF', 'VERIFYRET', 'STREAM'))
                     vr = s.comps.get('verify_ret')
                     # R12 / S-GATE: success is exactly "verification returned 0"
@@ -408,6 +427,16 @@ class DriverRules:
         dep = [T for T in self.Ts if sig[T] != sig[self.Ts[0]]]
         rec.extra['verify_outcome_depends_on_stream_count'] = bool(dep)
         rec.extra['verify_outcome_signature'] = {str(T): sorted(map(str, sig[T])) for T in (self.Ts[0], dep[0] if dep else self.Ts[-1])}
+
+    def mac_key_rule(self, s, T, f):
+        """R06.c: the 16 bytes the MAC is keyed with are the 16 bytes of the operation's key."""
+        want = tuple('$key%d' % j for j in range(16))
+        for e in s.comps.get('log', ()):
+            if e[0] == 'MACKEY':
+                ok = e[2] == want
+                self.n_mackey = getattr(self, 'n_mackey', 0) + 1
+                self.rec.ob('R06.c', 'R06.c@%s::mac-key-is-operation-key' % fkey(f), ok, e[3],
+                            'T=%d: %s is keyed with %s' % (T, e[1], 'the 16 bytes of the operation key' if ok else 'bytes %s (operation key = $key0..$key15)' % (e[2],)))
 
     def hash_range(self, s, ev, T, f, where, lens):
         rec = self.rec
